@@ -32,3 +32,31 @@ Theorem C13_traces_monotone :
   forall val (A : valg val) O p a b s,
     exists l, trace (run A O p (a + b) s) = trace (run A O p a s) ++ l.
 Proof. intros. apply trace_prefix_of_longer_run. Qed.
+
+(* import aliases: the module table after `from library import <file> [as <alias>]` statements is
+   Python's own binding - a name refers to the file of the LAST import that bound it, whatever other files
+   or aliases are spelled alike - provided the pass reads the ORIGINAL table and writes a fresh one, which
+   is re-read from CompilerPassSetModuleNames on every run *)
+From Coq Require Import String.
+From PV Require Import Model.ModuleNames Model.Skel.
+From PVGen Require Import GenSkeletons.
+Local Open Scope string_scope.
+Theorem C13_aliases_bind_like_python_imports :
+  forall Mod files (L : list import) d d', rename Mod files L d = Some d' ->
+    forall k, dict_get Mod d' k = py_binding Mod files L (dict_get Mod d k) k.
+Proof. exact rename_is_python_binding. Qed.
+
+Theorem C13_module_names_pass_as_modelled :
+  gen_modnames_import =
+    SSeq [SIf "node.modname != 'library'" (SSeq [SReturn ""]) (SSeq []);
+          SFor "(name, alias)" "node.names"
+            (SSeq [SAssign "new_name" "alias if alias else name";
+                   SAssign "module" "self.data.modules[name]";
+                   SAssign "module.name" "new_name";
+                   SAssign "self._renamed_modules[new_name]" "module"])] /\
+  gen_modnames_run =
+    SSeq [SAssign "self._renamed_modules" "{}"; SExpr "self._info('run')";
+          SFor "module" "self.data.modules.values()" (SSeq [SExpr "self._visit_node_recursive(module)"]);
+          SExpr "self._visit_node_recursive(self.tree)";
+          SAssign "self.data.modules" "self._renamed_modules"].
+Proof. split; reflexivity. Qed.
